@@ -142,7 +142,7 @@ def asan_env(extra=None):
                         "handle_segv=1:symbolize=1:max_malloc_fill_size=0",
         "ASAN_SYMBOLIZER_PATH": "/usr/bin/llvm-symbolizer-14",
         "PYTHONHASHSEED": "0",
-        "PYTHONPATH": ROOT,
+        "PYTHONPATH": f"{REPO}:{ROOT}",
     })
     if extra:
         env.update(extra)
